@@ -304,7 +304,7 @@ def _check_segment(events, mode, plugin, fixable, stats, where):
     expected_tokens = where["parses"].get(anchor[3])
     if expected_tokens is None:
         return "bad", "callbacks delivered although the parser was not invoked for this file"
-    digests, last_pragma = expected_tokens
+    digests, last_pragma, parsed_text = expected_tokens
     got = [e[1][0] for e in tokens]
     if "next_token" not in impl:
         got = digests
@@ -317,7 +317,9 @@ def _check_segment(events, mode, plugin, fixable, stats, where):
         # remember what was delivered for which bytes: compared later with what a
         # plain scan of the same bytes delivers (the same file must present the
         # same stream in every mode)
-        content = where["reads"].get(anchor[2])
+        # the text this sub-pass is a parse of: what the parser consumed (an implementation
+        # may keep intermediate versions in memory); the last file read where that is unknown
+        content = parsed_text.encode("utf-8", "surrogateescape") if parsed_text is not None else where["reads"].get(anchor[2])
         if content is not None:
             where["collect"].append((content, list(got), bool(last_pragma), plugin, where.get("cur_file")))
     if got != digests:
@@ -334,6 +336,14 @@ def _check_segment(events, mode, plugin, fixable, stats, where):
         return "tok", None
     line_anchor = lines[0] if lines else events[-1]
     content = where["reads"].get(line_anchor[2])
+    if mode == "fix":
+        # the version of the document a fix sub-pass works on is the text of the most recent
+        # parse (the pinned code writes every intermediate version to a file and re-reads
+        # it; an implementation may as well keep it in memory)
+        recent = where["parses"].get(line_anchor[3])
+        if recent is not None and recent[2] is not None:
+            content = recent[2].encode("utf-8", "surrogateescape")
+            stats["fix_lines_vs_parsed_text"] += 1
     if mode == "scan":
         # a scan does not change the file: the lines must be those the file holds when
         # the operation starts, whether or not (and whenever) the code reads it
@@ -457,7 +467,7 @@ def evaluate(sc):
                 per_op[current_op].append(segment)
         elif kind == "parse":
             parse_id += 1
-            parses[parse_id] = (entry[1], entry[2])
+            parses[parse_id] = (entry[1], entry[2], entry[3] if len(entry) > 3 else None)
         elif kind == "cb":
             if segment is None:
                 segment = {"file": current_target, "events": collections.defaultdict(list), "read": 0}
